@@ -393,7 +393,35 @@ func (e *Enc) havocLoc(h *Heap, loc *Sx, env *evalEnv, ins ssa.Instruction) {
 			return
 		}
 		for _, k := range e.w.keysOfType(st.Elem()) {
+			if e.token && k == "T:uint8" {
+				// byte cells of this one array (and the contents of slices over it); everything allocated so far and
+				// rooted elsewhere keeps its bytes and its byte-string content
+				e.heapGet(h, "T:uint8", "Int")
+				e.havocKeyFramed(h, k, e.allocCounter(h), []string{e.rootOf(app("sarr", x.v.T))})
+				continue
+			}
 			e.havocKeyExcept(h, k, app("sarr", x.v.T))
+		}
+	case "cell":
+		// (cell p): the one memory cell p points to
+		x := e.eval(loc.List[1], env)
+		pt, ok := under(x.t).(*types.Pointer)
+		if !ok {
+			e.unsupp("assigns cell: not a pointer: %s", loc)
+			e.havocAll(h)
+			return
+		}
+		switch under(pt.Elem()).(type) {
+		case *types.Struct, *types.Array:
+			for _, k := range e.w.keysOfType(pt.Elem()) {
+				e.havocKey(h, k)
+			}
+		default:
+			key := cellKey(pt.Elem())
+			srt := e.sortOf(pt.Elem())
+			v := e.fresh("asg", srt)
+			e.assert(e.typeFacts(v, pt.Elem()))
+			h.m[key] = app("store", e.heapGet(h, key, srt), x.v.T, v)
 		}
 	case "bigcell":
 		x := e.eval(loc.List[1], env)
@@ -674,6 +702,19 @@ func (e *Enc) builtin(ins ssa.Instruction, b *ssa.Builtin, c *ssa.CallCommon, re
 			e.noCouple = true
 			e.havocKeyFramed(h, "T:uint8", e.allocCounter(h), []string{e.rootOf(app("sarr", dst.T))})
 			e.noCouple = false
+			// copy into (a slice of) a small local array, e.g. `copy(ckSum[:], h[:4])`: the cells are the copied bytes
+			if sl, ok := c.Args[0].(*ssa.Slice); ok {
+				if pt, ok := under(sl.X.Type()).(*types.Pointer); ok {
+					if at, ok := under(pt.Elem()).(*types.Array); ok && at.Len() <= 16 && src.S == "Slice" {
+						sb := e.tokBytes(h, src.T)
+						hp := e.heapGet(h, "T:uint8", "Int")
+						for i := int64(0); i < at.Len(); i++ {
+							cell := app("select", hp, app("elem", app("sarr", dst.T), app("+", app("soff", dst.T), ilit(i))))
+							e.assert(implies(and(e.reach[e.curBlock], app("<", ilit(i), n)), app("=", cell, app("bat", sb, ilit(i)))))
+						}
+					}
+				}
+			}
 		} else {
 			for _, k := range e.w.keysOfType(st.Elem()) {
 				e.havocKey(h, k)
